@@ -350,7 +350,7 @@ func runTree(c *Ctx, persist bool) {
 		ps = os.Getpagesize()
 	}
 	z.VerifSetPageSize(ps)
-	nseq := c.N(30, 400)
+	nseq := c.N(30, 240)
 	keyDists := []string{"seq_up", "seq_down", "random", "dense", "boundary"}
 	valDists := []string{"small", "counter", "wide", "medium"}
 	for i := 0; i < nseq; i++ {
